@@ -136,3 +136,47 @@ func ZZ_C08_cuts_contiguous_counts() {
 		zzvAssert("boundary-cut-holds-exactly-the-complete-blocks", err == nil && dst.positiveValueStore.TotalCount() == zzRefTotal(ref.pos))
 	}
 }
+
+// C01/C12: the batch query answers each requested quantile like the single query, for quantiles given in
+// ANY order (descending and unsorted lists included), on both sides of the sketch
+func zzBatchAnyOrder(n int) {
+	zzvBound("batch quantiles", "n trackable values of either sign (unit weights, real sparse stores, contract mapping); two quantiles in [0,1] in any order (all bit patterns)")
+	zzvMapOrders(2)
+	zzvExactFloatsOnly()
+	m := zzContract()
+	s := NewDDSketch(m, store.NewSparseStore(), store.NewSparseStore())
+	for i := 0; i < n; i++ {
+		zzvAssert("trackable-value-accepted", s.Add(zzTrackable(m, "v")) == nil)
+	}
+	q1, q2 := zzvFloat64("q1"), zzvFloat64("q2")
+	zzvAssume(zzvAnd(zzvAnd(q1 >= 0, q1 <= 1), zzvAnd(q2 >= 0, q2 <= 1)))
+	zzvCover("built")
+	r1, e1 := s.GetValueAtQuantile(q1)
+	r2, e2 := s.GetValueAtQuantile(q2)
+	both, e3 := s.GetValuesAtQuantiles([]float64{q1, q2})
+	zzvAssert("queries-ok", e1 == nil && e2 == nil && e3 == nil && len(both) == 2)
+	zzvAssert("batch-equals-singles-in-any-order", zzvAnd(zzvSameBits(both[0], r1), zzvSameBits(both[1], r2)))
+}
+func ZZ_C01_batch_any_order_n2() { zzBatchAnyOrder(2) }
+func ZZ_C01_batch_any_order_n3() { zzBatchAnyOrder(3) }
+func ZZ_C12_batch_any_order_n2() { zzBatchAnyOrder(2) }
+
+// C02 (round 2): an argument that holds ONLY zero-bucket weight (both stores empty or cleared) still adds up
+func ZZ_C02_sketch_merge_zero_bucket_only_argument() {
+	zzvBound("zero-bucket-only argument", "receiver with stores of kinds {dense L=3, sparse M=2, paginated B=2} in arbitrary valid states; argument with empty stores (new or cleared, five layouts) and a symbolic dyadic zero weight")
+	kind := zzQuickKinds[zzvChoose("kind", 3)]
+	s := zzSketch("s", zzStub(1), kind, kind)
+	g := zzSnapSketch(s)
+	p := zzProbe()
+	ek := []int{0, 2, 4, 9, 10}[zzvChoose("emptyKind", 5)]
+	e := &DDSketch{IndexMapping: zzStub(1), positiveValueStore: store.ZZState("e.pos", ek), negativeValueStore: store.ZZState("e.neg", ek), zeroCount: store.ZZW("e.zero")}
+	zzvAssume(zzInvSketch(e))
+	z := e.zeroCount
+	zzvCover("pre-state")
+	zzvAssert("merge-ok", s.MergeWith(e) == nil)
+	zzvAssert("zero-weight-adds-up", s.zeroCount == g.zero+z)
+	zzvAssert("count-adds-up", s.GetCount() == store.ZZTotal(g.pos)+store.ZZTotal(g.neg)+g.zero+z)
+	zzvAssert("bins-unchanged", zzvAnd(store.ZZAbs(s.positiveValueStore, p) == store.ZZAbs(g.pos, p), store.ZZAbs(s.negativeValueStore, p) == store.ZZAbs(g.neg, p)))
+	zzvAssert("argument-unchanged", zzvAnd(e.zeroCount == z, zzvAnd(e.positiveValueStore.IsEmpty(), e.negativeValueStore.IsEmpty())))
+	zzvAssert("empty-iff-no-weight", s.IsEmpty() == (s.GetCount() == 0))
+}
